@@ -215,6 +215,27 @@ func C16(run *core.Run) {
 		n := steps/2 + r.Intn(steps)
 		for i := 0; i < n; i++ {
 			switch k := r.Intn(10); {
+			case k < 5 && r.Intn(6) == 0:
+				// a theme: an event of any class (ephemeral ones are acknowledged and not stored), a deletion request of its
+				// author that names it by id, the event once more -- the second OK rejects whatever the class
+				e := g.Event()
+				for cls(e.Kind) == "regular" && e.Kind == 5 {
+					e = g.Event()
+				}
+				if r.Intn(3) == 0 {
+					e.Kind = 20000 + int64(r.Intn(2)) // often an ephemeral one: acknowledged the first time, refused once its deletion request is stored
+					g.Hist[len(g.Hist)-1] = e
+				}
+				kts := e.TS // (the extreme abstract timestamps stand for the ends of the int64 range: no arithmetic on them)
+				if 2 <= e.TS && e.TS < g.MaxTS {
+					kts += int64(r.Intn(3)) - 1
+				}
+				k5 := abs.Event{ID: g.label(), Author: e.Author, Kind: 5, TS: kts, Tags: []abs.Tag{{Name: "e", Val: e.ID, N: 2}}}
+				g.Hist = append(g.Hist, k5)
+				for _, x := range []abs.Event{e, k5, e} {
+					msgs = append(msgs, &mocrelay.ClientEventMsg{Event: conc.Event(x, "c")})
+					lines = append(lines, map[string]any{"op": "EVENT", "e": x, "shape": "EVENT " + cls(x.Kind) + " (event, its deletion request, the event again)"})
+				}
 			case k < 5:
 				e := g.Offer()
 				msgs = append(msgs, &mocrelay.ClientEventMsg{Event: conc.Event(e, "c")})
@@ -350,7 +371,7 @@ func C16(run *core.Run) {
 		}
 	}
 	c16DumpRestore(run, distinct)
-	run.Set("rule", "seeded random client sessions over all five message types (EVENT of every class incl. duplicates, REQ with random and match-all filter lists and, now and then, with an id / author condition that is not hex - it matches nothing, the SQLite store cannot build the query, the reply is still one EOSE -, COUNT, CLOSE, AUTH) are pipelined into NewCacheHandler(cap) and NewSQLiteHandler(EventBulkInsertNum=1); the complete output sequence is validated by TLC against HandlerTrace (replies in request order, one OK / EVENT* EOSE / one COUNT / nothing; cache verdicts from Store!AddRel, SQLite background insertion as silent Flush steps). Dump/Restore: every cache state reached by the histories is dumped, restored into a fresh handler of the same capacity, and probe queries of the restored handler are judged against the original listing (FindTrace); TLC also checks DumpRestoreOK on every state of StoreMC (C04 run). distinct_nontrivial = distinct sessions + distinct dumped states")
+	run.Set("rule", "seeded random client sessions over all five message types (EVENT of every class incl. duplicates and the theme event / its deletion request / the event again, REQ with random and match-all filter lists and, now and then, with an id / author condition that is not hex - it matches nothing, the SQLite store cannot build the query, the reply is still one EOSE -, COUNT, CLOSE, AUTH) are pipelined into NewCacheHandler(cap) and NewSQLiteHandler(EventBulkInsertNum=1); the complete output sequence is validated by TLC against HandlerTrace (replies in request order, one OK / EVENT* EOSE / one COUNT / nothing; cache verdicts from Store!AddRel, SQLite background insertion as silent Flush steps). Dump/Restore: every cache state reached by the histories is dumped, restored into a fresh handler of the same capacity, and probe queries of the restored handler are judged against the original listing (FindTrace); TLC also checks DumpRestoreOK on every state of StoreMC (C04 run). distinct_nontrivial = distinct sessions + distinct dumped states")
 	run.Set("evaluations", run.Get("messages_sent")+run.Get("restore_probes"))
 	run.Set("distinct_nontrivial", distinct.Len())
 	run.Assume = append(run.Assume, "the count value of COUNT replies is not constrained by the property", "SQLite REQ answers may or may not include events still in the insertion queue")
